@@ -486,21 +486,38 @@ func c17r5(c *Ctx) {
 		var fieldSets [][]string
 		for i, a := range callArgs(d.Common()) {
 			nc, idx := asCall(a)
+			// the facts under which the value was obtained: those at the comparison, or — for a value
+			// kept in an element of a local array that a loop fills — those at the store of its iteration
+			vfs := fs
+			var el *c17FilledElem
+			if nc == nil {
+				if el = p.c17ElemFilledByLoop(f, a, d); el != nil {
+					nc, idx = asCall(el.Val)
+					vfs = p.FactsAt(el.Store.Block())
+				}
+			}
 			if nc == nil || idx != 0 || !isCallTo(nc.Common(), pkgUnstr+".NestedFieldCopy", pkgUnstr+".NestedFieldNoCopy") {
 				pr = append(pr, fmt.Sprintf("operand %d of DeepEqual is %s, not the value returned by unstructured.NestedField*", i+1, p.describe(a)))
 				continue
+			}
+			if el != nil && !el.L.Body[nc.Block()] {
+				pr = append(pr, fmt.Sprintf("operand %d: every element of the array holds the result of the one lookup at %s", i+1, p.IPos(nc)))
 			}
 			if obj == nil || !c17DerivesFrom(nc.Call.Args[0], obj, 0) {
 				pr = append(pr, fmt.Sprintf("operand %d is not read from the probed object", i+1))
 			}
 			ok, er := c16Extract(nc, 1), c16Extract(nc, 2)
-			if ok == nil || p.boolFromFacts(fs, ok) != yesTri {
+			if ok == nil || p.boolFromFacts(vfs, ok) != yesTri {
 				pr = append(pr, fmt.Sprintf("the comparison is reachable although field %d may be missing (found flag of %s not tested)", i+1, p.IPos(nc)))
 			}
-			if er == nil || p.nilnessFromFacts(fs, er) != yesTri {
+			if er == nil || p.nilnessFromFacts(vfs, er) != yesTri {
 				pr = append(pr, fmt.Sprintf("the comparison is reachable although the lookup of field %d may have failed (error of %s not tested)", i+1, p.IPos(nc)))
 			}
-			fieldSets = append(fieldSets, c17RecvFieldsIn(f, nc.Call.Args[1]))
+			if el != nil {
+				fieldSets = append(fieldSets, c17RecvFieldsInIteration(f, nc.Call.Args[1], el))
+			} else {
+				fieldSets = append(fieldSets, c17RecvFieldsIn(f, nc.Call.Args[1]))
+			}
 		}
 		if len(fieldSets) == 2 {
 			a, b := strings.Join(fieldSets[0], ","), strings.Join(fieldSets[1], ",")
@@ -549,6 +566,260 @@ func c17r5(c *Ctx) {
 	if n == 0 {
 		c.AnchorLost("function of " + pkgProbing + " calling DeepEqual(a, b)")
 	}
+}
+
+// c17FilledElem: element K of a local array, read behind a counting loop that fills the array — iteration
+// i stores Val (a value computed in that iteration) into element i, on every way through the iteration,
+// and the read happens only after the loop ran over all indexes.
+type c17FilledElem struct {
+	K     int64
+	L     *Loop
+	Idx   ssa.Value  // the index of the running iteration
+	Store *ssa.Store // arr[Idx] = Val
+	Val   ssa.Value
+}
+
+// c17ElemFilledByLoop recognises v, an operand of the instruction `use`, as arr[K] (K constant) of a
+// local array arr whose only assignment is `arr[i] = val` in a counting loop over i = 0 … n-1 (n > K):
+// the store lies on every way through an iteration (it dominates every back edge), belongs to no
+// inner loop, and `use` is reachable only over the loop-exhausted exit. The array must not be written
+// or leaked in any other way. Then arr[K] at `use` is the val of iteration K, obtained under the
+// facts that hold at the store.
+func (p *Program) c17ElemFilledByLoop(f *ssa.Function, v ssa.Value, use ssa.Instruction) *c17FilledElem {
+	ld, ok := stripConv(v).(*ssa.UnOp)
+	if !ok || ld.Op != token.MUL {
+		return nil
+	}
+	ia, ok := ld.X.(*ssa.IndexAddr)
+	if !ok {
+		return nil
+	}
+	arr, ok := ia.X.(*ssa.Alloc)
+	if !ok {
+		return nil
+	}
+	at, ok := arr.Type().Underlying().(*types.Pointer)
+	if !ok {
+		return nil
+	}
+	arrT, ok := at.Elem().Underlying().(*types.Array)
+	if !ok {
+		return nil
+	}
+	k, ok := constInt(ia.Index)
+	if !ok || k < 0 || k >= arrT.Len() {
+		return nil
+	}
+	var store *ssa.Store
+	for _, r := range referrersOf(arr) {
+		switch x := r.(type) {
+		case *ssa.DebugRef:
+		case *ssa.UnOp:
+			if x.Op != token.MUL {
+				return nil
+			}
+		case *ssa.IndexAddr:
+			if x.X != ssa.Value(arr) {
+				return nil
+			}
+			for _, rr := range referrersOf(x) {
+				switch y := rr.(type) {
+				case *ssa.DebugRef:
+				case *ssa.UnOp:
+					if y.Op != token.MUL {
+						return nil
+					}
+				case *ssa.Store:
+					if y.Addr != ssa.Value(x) || store != nil {
+						return nil
+					}
+					store = y
+				default:
+					return nil
+				}
+			}
+		default:
+			return nil
+		}
+	}
+	if store == nil {
+		return nil
+	}
+	L := innermostLoop(f, store.Block())
+	if L == nil || L.Body[arr.Block()] {
+		return nil
+	}
+	cl, _ := p.pfCountingLoop(L)
+	if cl == nil {
+		return nil
+	}
+	sia := store.Addr.(*ssa.IndexAddr)
+	if stripConv(sia.Index) != stripConv(cl.Idx) {
+		return nil
+	}
+	if n, ok := constInt(cl.Bound); !ok || n <= k {
+		return nil
+	}
+	if len(L.Tails) == 0 {
+		return nil
+	}
+	for _, t := range L.Tails {
+		if !store.Block().Dominates(t) && store.Block() != t {
+			return nil
+		}
+	}
+	// the value is computed anew in the iteration that stores it, or is loop-invariant
+	if in, ok := store.Val.(ssa.Instruction); ok && L.Body[in.Block()] {
+		if _, isPhi := store.Val.(*ssa.Phi); isPhi {
+			return nil
+		}
+	}
+	// the use is reached only when the loop condition has become false
+	if L.Body[use.Block()] {
+		return nil
+	}
+	if _, early := pfReachable(f, cl.exitEdge, nil)[use.Block()]; early {
+		return nil
+	}
+	if ld.Block() != use.Block() && L.Body[ld.Block()] {
+		return nil
+	}
+	if _, early := pfReachable(f, cl.exitEdge, nil)[ld.Block()]; early {
+		return nil
+	}
+	return &c17FilledElem{K: k, L: L, Idx: cl.Idx, Store: store, Val: store.Val}
+}
+
+// c17ConstFilledElem: element k of a local array that is filled once, element by element at constant
+// indexes, by stores outside every loop that all precede `read`, and is otherwise only read.
+func c17ConstFilledElem(f *ssa.Function, arr *ssa.Alloc, k int64, read ssa.Instruction) ssa.Value {
+	var val ssa.Value
+	seen := map[int64]bool{}
+	for _, r := range referrersOf(arr) {
+		switch x := r.(type) {
+		case *ssa.DebugRef:
+		case *ssa.UnOp:
+			if x.Op != token.MUL {
+				return nil
+			}
+		case *ssa.IndexAddr:
+			for _, rr := range referrersOf(x) {
+				switch y := rr.(type) {
+				case *ssa.DebugRef:
+				case *ssa.UnOp:
+					if y.Op != token.MUL {
+						return nil
+					}
+				case *ssa.Store:
+					i, isConst := constInt(x.Index)
+					if y.Addr != ssa.Value(x) || !isConst || seen[i] {
+						return nil
+					}
+					seen[i] = true
+					if innermostLoop(f, y.Block()) != nil {
+						return nil
+					}
+					if y.Block() == read.Block() {
+						if instrIndex(y) > instrIndex(read) {
+							return nil
+						}
+					} else if !y.Block().Dominates(read.Block()) {
+						return nil
+					}
+					if i == k {
+						val = y.Val
+					}
+				default:
+					return nil
+				}
+			}
+		default:
+			return nil
+		}
+	}
+	return val
+}
+
+// c17RecvFieldsInIteration: like c17RecvFieldsIn for a value computed in iteration el.K of the loop: a
+// read of configured[<loop index>] from a constant-filled local array stands for its element el.K. Any
+// other dependence on the iteration (another index, a loop-carried value) gives no answer.
+func c17RecvFieldsInIteration(f *ssa.Function, v ssa.Value, el *c17FilledElem) []string {
+	set := map[string]bool{}
+	seen := map[ssa.Value]bool{}
+	bad := false
+	isIdx := func(i ssa.Value) bool { return stripConv(i) == stripConv(el.Idx) }
+	var walk func(v ssa.Value, d int)
+	walk = func(v ssa.Value, d int) {
+		if v == nil || seen[v] || bad {
+			return
+		}
+		if d > 14 {
+			bad = true
+			return
+		}
+		seen[v] = true
+		if name, ok := c17RecvFieldName(f, v); ok {
+			set[name] = true
+			return
+		}
+		var arr *ssa.Alloc
+		var index ssa.Value
+		var read ssa.Instruction
+		switch x := v.(type) {
+		case *ssa.Phi:
+			if el.L.Body[x.Block()] {
+				bad = true
+			}
+			return
+		case *ssa.Index:
+			// element of a copy of the array (range over an array value)
+			if u, ok := x.X.(*ssa.UnOp); ok && u.Op == token.MUL {
+				arr, _ = u.X.(*ssa.Alloc)
+				read = u
+			}
+			index = x.Index
+		case *ssa.UnOp:
+			if ia, ok := x.X.(*ssa.IndexAddr); ok && x.Op == token.MUL {
+				arr, _ = ia.X.(*ssa.Alloc)
+				index, read = ia.Index, x
+			}
+		}
+		if index != nil {
+			if arr == nil || !isIdx(index) || el.L.Body[arr.Block()] {
+				bad = true
+				return
+			}
+			ev := c17ConstFilledElem(f, arr, el.K, read)
+			if ev == nil {
+				bad = true
+				return
+			}
+			walk(ev, d+1)
+			return
+		}
+		if isIdx(v) {
+			bad = true
+			return
+		}
+		if in, ok := v.(ssa.Instruction); ok {
+			var ops []*ssa.Value
+			for _, op := range in.Operands(ops) {
+				if *op != nil {
+					walk(*op, d+1)
+				}
+			}
+		}
+	}
+	walk(v, 0)
+	if bad {
+		return nil
+	}
+	var out []string
+	for k := range set {
+		out = append(out, k)
+	}
+	sort.Strings(out)
+	return out
 }
 
 // c17RecvFieldsIn: names of receiver fields the value is computed from.
